@@ -88,3 +88,10 @@ Fixpoint index_from {A} (i : N) (l : list A) : list (N * A) :=
 
 Definition gate2_check (cs : list case) : list (N * N * N) :=
   map (fun ic => let '(a, b) := check_case (snd ic) in (fst ic, a, b)) (index_from 0 cs).
+
+(* ---------------------------------------------------------------- the --blocksz argument *)
+From S4.Model Require Import BlockszArg.
+(* (argument bytes in hex) -> (index, 0 = rejected | value + 1) *)
+Definition blocksz_check (args : list string) : list (N * N) :=
+  map (fun ia => (fst ia, match process_blocksz (unhex (snd ia)) with Some v => v + 1 | None => 0 end))
+      (index_from 0 args).
